@@ -84,7 +84,15 @@ pub fn gen(rng: &mut Rng, idx: usize, n: usize, thorough: bool) -> String {
     if rng.chance(1, 4) {
         q.sort();
     }
-    let mut s = format!("{p} Q {target} {} {k}", rng.coin() as u8);
+    // small-magnitude stream: conjoin a fresh variable s (added at run time, so it sits at the
+    // bottom of the order) with hi weight 2^-m and lo weight 1 - 2^-m: every path to true passes
+    // through s, so every value and bound is an exact multiple of 2^-m and differences between
+    // candidate optima drop far below 2^-52 in absolute terms while staying exact in f64
+    let scaled = rng.chance(1, 8);
+    let tiny: u32 = *rng.pick(&[30u32, 40, 45]);
+    let otarget = target;
+    let (p, target, negflag) = if scaled { (format!("{p} N 1 a {target} {npool}"), npool + 1, 0u8) } else { (p, target, rng.coin() as u8) };
+    let mut s = format!("{p} Q {target} {negflag} {k}");
     for v in &q {
         s.push_str(&format!(" {v}"));
     }
@@ -101,6 +109,9 @@ pub fn gen(rng: &mut Rng, idx: usize, n: usize, thorough: bool) -> String {
             s.push_str(&format!(" {} {h}", 8 - h));
         }
     }
+    if scaled {
+        s.push_str(&format!(" {}@{tiny} 1@{tiny}", (1u64 << tiny) - 1));
+    }
     // expected-utility weights
     let last_dec = q.iter().map(|v| level_of(&prog, *v)).max();
     let frac_dec = rng.chance(1, 5);
@@ -114,7 +125,7 @@ pub fn gen(rng: &mut Rng, idx: usize, n: usize, thorough: bool) -> String {
                 s.push_str(" 8 0 8 0");
             }
         } else if last_dec.map_or(true, |l| level_of(&prog, v) > l) {
-            match if supports[target].contains(&v) && rng.chance(1, 2) { 0 } else { rng.below(6) } {
+            match if supports[otarget].contains(&v) && rng.chance(1, 2) { 0 } else { rng.below(6) } {
                 0 | 1 | 2 => s.push_str(&format!(" 8 0 8 {}", 1 + rng.below(5))),
                 3 => { let h = w8(rng); s.push_str(&format!(" {} 0 {h} 0", 8 - h)) }
                 4 => { let h = w8(rng); s.push_str(&format!(" {} {} {h} {}", 8 - h, rng.below(3), rng.below(4))) }
@@ -124,6 +135,9 @@ pub fn gen(rng: &mut Rng, idx: usize, n: usize, thorough: bool) -> String {
             let h = w8(rng);
             s.push_str(&format!(" {} 0 {h} 0", 8 - h));
         }
+    }
+    if scaled {
+        s.push_str(" 4 0 4 0");
     }
     s
 }
@@ -246,7 +260,11 @@ pub fn run(case: &str, st: &mut Stats) -> Outcome {
     let mut i = 4 + k;
     assert!(tail[i] == "R");
     i += 1;
-    let rw: Vec<(i128, i128)> = (0..total).map(|v| (tail[i + 2 * v].parse().unwrap(), tail[i + 2 * v + 1].parse().unwrap())).collect();
+    // a real weight token is n (= n/8) or n@k (= n/2^k); both literals of a variable share k
+    let wtok = |s: &str| -> (i128, u32) { match s.split_once('@') { Some((n, k)) => (n.parse().unwrap(), k.parse().unwrap()), None => (s.parse().unwrap(), 3) } };
+    let rexp: Vec<u32> = (0..total).map(|v| wtok(&tail[i + 2 * v]).1).collect();
+    let rw: Vec<(i128, i128)> = (0..total).map(|v| (wtok(&tail[i + 2 * v]).0, wtok(&tail[i + 2 * v + 1]).0)).collect();
+    let rf = |n: i128, k: u32| -> f64 { n as f64 / 2f64.powi(k as i32) };
     i += 2 * total;
     assert!(tail[i] == "E");
     i += 1;
@@ -263,7 +281,7 @@ pub fn run(case: &str, st: &mut Stats) -> Outcome {
     let mut fails = vec![];
 
     // ---- implementation
-    let real: WmcParams<RealSemiring> = WmcParams::new(HashMap::from_iter((0..total).map(|v| (VarLabel::new(v as u64), (RealSemiring(rw[v].0 as f64 / 8.0), RealSemiring(rw[v].1 as f64 / 8.0))))));
+    let real: WmcParams<RealSemiring> = WmcParams::new(HashMap::from_iter((0..total).map(|v| (VarLabel::new(v as u64), (RealSemiring(rf(rw[v].0, rexp[v])), RealSemiring(rf(rw[v].1, rexp[v])))))));
     let eu: WmcParams<ExpectedUtility> = WmcParams::new(HashMap::from_iter((0..total).map(|v| {
         (VarLabel::new(v as u64), (ExpectedUtility(ew[v][0] as f64 / 8.0, ew[v][1] as f64), ExpectedUtility(ew[v][2] as f64 / 8.0, ew[v][3] as f64)))
     })));
@@ -289,7 +307,7 @@ pub fn run(case: &str, st: &mut Stats) -> Outcome {
         if sub == 0 { break; }
         sub = (sub - 1) & qmask;
     }
-    // real objective: numerator over 8^total
+    // real objective: numerator over the product of the per-variable denominators 2^k
     let real_obj = |pi: usize| -> i128 {
         let mut s = 0i128;
         for a in 0..(1usize << total) {
@@ -303,7 +321,7 @@ pub fn run(case: &str, st: &mut Stats) -> Outcome {
         }
         s
     };
-    let den = D { n: 1, k: 3 * total as u32 };
+    let den = D { n: 1, k: rexp.iter().sum::<u32>() };
     let real_best = qasg.iter().map(|pi| real_obj(*pi)).max().unwrap();
     for (what, v, m) in [("marginal_map", mm_v, &mm_m), ("bb<RealSemiring>", bbr_v.0, &bbr_m)] {
         if let Some(pi) = query_bits(m, &q, total, what, &mut fails) {
